@@ -4,6 +4,7 @@
    secp256k1 entry is present; CombinedKey -> one of the two sides. The model gives both secp256k1 back-ends
    the same SEC1 oracle [secp_pk]: that the two libraries agree on it is sampled, not proved (section 8). *)
 Require Import EnrProofs.Tactics EnrProofs.BytesLemmas EnrProofs.WellFormedLemmas EnrProofs.Thm_Valid.
+Require EnrProofs.Thm_Update.
 Require Import Enr.Consts Enr.Rlp Enr.SortedMap Enr.Keccak Enr.Record Enr.Update Enr.Spec.
 Open Scope N_scope.
 
@@ -88,3 +89,26 @@ Proof.
 Qed.
 
 End WithCrypto.
+
+(* C05, last sentence, with the hypotheses on the key discharged: after a successful update made with key k the record's
+   public key accessor returns k's public key, its node id and signature are those of k, and it verifies *)
+Section Rekey.
+Variable c : crypto.
+Variable kt : keytype.
+
+Theorem rekeyed_record r o k sg x r' :
+  Valid c kt r -> op_ok o -> key_bytes_ok k -> KeyOk c kt k -> GoodSigner c k sg ->
+  step c kt r o k sg = (Ok x, r') ->
+  public_key c kt r' = Ok (sk_pub k) /\ nid r' = node_id_of (sk_pub k) /\
+  verify_v4 c (sk_pub k) (signed_payload r') (sig r') = true /\ verify c kt r' = Ok true /\ Valid c kt r'.
+Proof.
+  intros Hv Ho Hkb Hko Hg Hs.
+  destruct (valid_content c kt r Hv) as (_ & _ & Hseq).
+  assert (Hn : forall n, o = OSetSeq n -> n < 2 ^ 64) by (intros n ->; exact Ho).
+  destruct (Thm_Update.step_rekeys c kt r o k sg x r' Hseq Hn Hs) as (p & Hp & He & Hnid & Hsig).
+  pose proof (Hko _ _ Hp He) as Hpk. subst p.
+  pose proof (step_valid c kt r o k sg x r' Hv Ho Hkb Hko Hg Hs) as Hv'.
+  destruct (valid_observables c kt r' Hv') as (pk & _ & Hver & _).
+  split; [unfold public_key; rewrite Hp; reflexivity|]. split; [exact Hnid|]. split; [exact (Hg _ _ Hsig)|]. split; assumption.
+Qed.
+End Rekey.
